@@ -139,7 +139,11 @@ def check_decoder(res, ctx, rng, name):
         if name in ('BSC_setsockopt', 'BSC_getsockopt') and s2[1] == domain.SOL_SOCKET_DARWIN \
                 and s2[2] not in domain.SOCKOPT_NAMES:
             s2[2] = rng.choice(domain.SOCKOPT_NAMES)   # SOL_SOCKET => the option must be a declared one (domain)
-        junk = H.unrelated(rng, rng.randrange(0, 3))
+        # unrelated same-thread records nested in the window: a few, or (one variant per decoder) several hundred -
+        # a long-running call sees that many records of its own thread before it returns
+        junk = H.unrelated(rng, rng.randrange(0, 3) if variant else rng.choice((260, 300, 520)))
+        if not variant:
+            res.count('long_windows')
         for end in ([0] + ret, [22] + ret):
             try:
                 t = r(s2, end, junk)
@@ -177,6 +181,7 @@ def run(ctx):
     res.require('error_renderings_checked', 100)
     res.require('success_results_checked', 50)
     res.require('decoders_checked', 50)
+    res.require('long_windows', 20)
     return res
 
 
